@@ -211,6 +211,10 @@ where
             };
         }
 
+        // Refuse a rumor without id before anything is written: the id is the key under which
+        // the welcome is stored.
+        let rumor_event_id = rumor_event.id.ok_or(Error::MissingRumorEventId)?;
+
         let welcome_preview = self.preview_welcome(wrapper_event_id, rumor_event)?;
 
         // Create a pending group
@@ -268,8 +272,6 @@ where
             state: welcome_types::ProcessedWelcomeState::Processed,
             failure_reason: None,
         };
-
-        let rumor_event_id = rumor_event.id.ok_or(Error::MissingRumorEventId)?;
 
         let welcome = welcome_types::Welcome {
             id: rumor_event_id,
